@@ -43,7 +43,7 @@ def spread(cases, hist):
     """insert the (expensive) history cases evenly so that they do not share one work chunk"""
     stride = max(1, len(cases) // max(1, len(hist)))
     for k, h in enumerate(hist):
-        cases.insert(min(len(cases), 2 + k * (stride + 1)), h)
+        cases.insert(min(len(cases), 5 + k * (stride + 1)), h)
     return cases
 
 
